@@ -20,6 +20,11 @@ def mk_settings(codes):
             out.append(c)
         elif c.startswith('name:'):
             out.append(c[5:])
+        elif c.startswith('enum:'):
+            from .env import AnsiFormat
+            out.append(AnsiFormat[c[5:]])
+        elif c.startswith('int:'):
+            out.append(int(c[4:]))
         else:
             out.append(AnsiSetting(c))
     return out
